@@ -126,11 +126,12 @@ def selftest():
     assert abs(float(pa_diff(0.01, math.pi - 0.01)) - 0.02) < 1e-12
     assert abs(float(pa_diff(1.0, 1.0 + math.pi))) < 1e-12
     assert abs(float(pa_diff(0.0, math.pi / 2)) - math.pi / 2) < 1e-12
-    # rendered image: the maximum is at the pixel nearest to the centre and the
-    # major axis is brighter than the minor axis at equal distance
-    img = render((41, 41), 20.3, 19.6, 0.5, math.radians(30), radial_law('gauss', 1.0, 6.0))
+    # rendered image: for a round profile the maximum is at the pixel nearest to the centre; for a
+    # flattened one the major axis is brighter than the minor axis at equal distance
+    img = render((41, 41), 20.3, 19.6, 0.0, 0.3, radial_law('gauss', 1.0, 6.0))
     j, i = np.unravel_index(np.argmax(img), img.shape)
     assert (i, j) == (20, 20)
+    img = render((41, 41), 20.3, 19.6, 0.5, math.radians(30), radial_law('gauss', 1.0, 6.0))
     xa, ya = from_polar_ref(8.0, 0.0, 20.3, 19.6, math.radians(30))
     xb, yb = from_polar_ref(8.0, math.pi / 2, 20.3, 19.6, math.radians(30))
     assert img[int(round(ya)), int(round(xa))] > img[int(round(yb)), int(round(xb))]
